@@ -277,4 +277,187 @@ theorem skipKV_agree {seek : Bool} {f1 f2 : Nat} {kt vt : UInt8} {n : Nat} {s a 
     (h1 : skipKV seek f1 kt vt n s = .ok a) (h2 : skipKV seek f2 kt vt n s = .ok b) : a = b :=
   (agreeAt seek f1).2.2.2 f2 kt vt n s a b h1 h2
 
+/-! ### skipping preserves well-formedness of the position -/
+
+def WfAt (seek : Bool) (f : Nat) : Prop :=
+  (∀ t s a, WFSt s → skip seek f t s = .ok a → WFSt a) ∧
+  (∀ s a, WFSt s → skipStruct seek f s = .ok a → WFSt a) ∧
+  (∀ et n s a, WFSt s → skipN seek f et n s = .ok a → WFSt a) ∧
+  (∀ kt vt n s a, WFSt s → skipKV seek f kt vt n s = .ok a → WFSt a)
+
+theorem wfAt (seek : Bool) (f : Nat) : WfAt seek f := by
+  induction f with
+  | zero =>
+    refine ⟨?_, ?_, ?_, ?_⟩
+    · intro t s a _ h; simp [skip] at h
+    · intro s a _ h; simp [skipStruct] at h
+    · intro et n s a hw h
+      cases n with
+      | zero => rw [skipN_zero h]; exact hw
+      | succ n => simp [skipN] at h
+    · intro kt vt n s a hw h
+      cases n with
+      | zero => rw [skipKV_zero h]; exact hw
+      | succ n => simp [skipKV] at h
+  | succ f ih =>
+    obtain ⟨ihS, ihT, ihN, ihK⟩ := ih
+    refine ⟨?_, ?_, ?_, ?_⟩
+    · intro t s a hw h
+      unfold skip at h
+      by_cases hfx : 0 < fixedWidth t
+      · simp only [hfx, if_true] at h
+        cases hd : discard seek (fixedWidth t) s with
+        | none => simp [hd] at h
+        | some s' => simp [hd] at h; subst h; exact discard_wf hd hw
+      · simp only [hfx, if_false] at h
+        cases ht : TType.ofByte t with
+        | none => simp [ht] at h
+        | some tt =>
+          simp only [ht] at h
+          cases tt <;> simp only [] at h <;> try (cases h; done)
+          case binary =>
+            cases hl : stRdLen s with
+            | none => simp [hl] at h
+            | some p =>
+              obtain ⟨n, s'⟩ := p
+              simp only [hl] at h
+              have hw' := (stRdLen_wf hl hw).1
+              cases hd : discard seek n s' with
+              | none => simp [hd] at h
+              | some s'' => simp [hd] at h; subst h; exact discard_wf hd hw'
+          case struct => exact ihT s a hw h
+          case map =>
+            cases hb1 : stByte s with
+            | none => simp [hb1] at h
+            | some p1 =>
+              obtain ⟨kt, s1⟩ := p1
+              simp only [hb1] at h
+              have hw1 := (stByte_wf hb1 hw).1
+              cases hb2 : stByte s1 with
+              | none => simp [hb2] at h
+              | some p2 =>
+                obtain ⟨vt, s2⟩ := p2
+                simp only [hb2] at h
+                have hw2 := (stByte_wf hb2 hw1).1
+                cases hl : stRdLen s2 with
+                | none => simp [hl] at h
+                | some p3 =>
+                  obtain ⟨n, s3⟩ := p3
+                  simp only [hl] at h
+                  have hw3 := (stRdLen_wf hl hw2).1
+                  by_cases hfw : 0 < fixedWidth kt ∧ 0 < fixedWidth vt
+                  · simp only [hfw, and_self, if_true] at h
+                    cases hd : discard seek (n * (fixedWidth kt + fixedWidth vt)) s3 with
+                    | none => simp [hd] at h
+                    | some s' => simp [hd] at h; subst h; exact discard_wf hd hw3
+                  · simp only [hfw, if_false] at h
+                    exact ihK kt vt n s3 a hw3 h
+          case set =>
+            cases hb1 : stByte s with
+            | none => simp [hb1] at h
+            | some p1 =>
+              obtain ⟨et, s1⟩ := p1
+              simp only [hb1] at h
+              have hw1 := (stByte_wf hb1 hw).1
+              cases hl : stRdLen s1 with
+              | none => simp [hl] at h
+              | some p3 =>
+                obtain ⟨n, s2⟩ := p3
+                simp only [hl] at h
+                have hw2 := (stRdLen_wf hl hw1).1
+                by_cases hfw : 0 < fixedWidth et
+                · simp only [hfw, if_true] at h
+                  cases hd : discard seek (fixedWidth et * n) s2 with
+                  | none => simp [hd] at h
+                  | some s' => simp [hd] at h; subst h; exact discard_wf hd hw2
+                · simp only [hfw, if_false] at h
+                  exact ihN et n s2 a hw2 h
+          case list =>
+            cases hb1 : stByte s with
+            | none => simp [hb1] at h
+            | some p1 =>
+              obtain ⟨et, s1⟩ := p1
+              simp only [hb1] at h
+              have hw1 := (stByte_wf hb1 hw).1
+              cases hl : stRdLen s1 with
+              | none => simp [hl] at h
+              | some p3 =>
+                obtain ⟨n, s2⟩ := p3
+                simp only [hl] at h
+                have hw2 := (stRdLen_wf hl hw1).1
+                by_cases hfw : 0 < fixedWidth et
+                · simp only [hfw, if_true] at h
+                  cases hd : discard seek (fixedWidth et * n) s2 with
+                  | none => simp [hd] at h
+                  | some s' => simp [hd] at h; subst h; exact discard_wf hd hw2
+                · simp only [hfw, if_false] at h
+                  exact ihN et n s2 a hw2 h
+    · intro s a hw h
+      unfold skipStruct at h
+      cases hb : stByte s with
+      | none => simp [hb] at h
+      | some p =>
+        obtain ⟨t, s1⟩ := p
+        simp only [hb] at h
+        have hw1 := (stByte_wf hb hw).1
+        by_cases ht : t = 0
+        · simp only [ht, if_true] at h; cases h; exact hw1
+        · simp only [ht, if_false] at h
+          cases hd : discard seek 2 s1 with
+          | none => simp [hd] at h
+          | some s2 =>
+            simp only [hd] at h
+            have hw2 := discard_wf hd hw1
+            cases hs : skip seek f t s2 with
+            | error e => simp [hs] at h
+            | ok s3 =>
+              simp only [hs] at h
+              exact ihT s3 a (ihS t s2 s3 hw2 hs) h
+    · intro et n s a hw h
+      cases n with
+      | zero => rw [skipN_zero h]; exact hw
+      | succ n =>
+        simp only [skipN] at h
+        cases hs : skip seek f et s with
+        | error e => simp [hs] at h
+        | ok s1 =>
+          simp only [hs] at h
+          exact ihN et n s1 a (ihS et s s1 hw hs) h
+    · intro kt vt n s a hw h
+      cases n with
+      | zero => rw [skipKV_zero h]; exact hw
+      | succ n =>
+        simp only [skipKV] at h
+        cases hk : skip seek f kt s with
+        | error e => simp [hk] at h
+        | ok s1 =>
+          simp only [hk] at h
+          cases hv : skip seek f vt s1 with
+          | error e => simp [hv] at h
+          | ok s2 =>
+            simp only [hv] at h
+            exact ihK kt vt n s2 a (ihS vt s1 s2 (ihS kt s s1 hw hk) hv) h
+
+theorem skipListItems_wf {seek : Bool} {f : Nat} {et : UInt8} {n : Nat} {s a : St}
+    (hw : WFSt s) (h : skipListItems seek f et n s = .ok a) : WFSt a := by
+  unfold skipListItems at h
+  by_cases hfw : 0 < fixedWidth et
+  · simp only [hfw, if_true] at h
+    cases hd : discard seek (fixedWidth et * n) s with
+    | none => simp [hd] at h
+    | some s' => simp [hd] at h; subst h; exact discard_wf hd hw
+  · simp only [hfw, if_false] at h
+    exact (wfAt seek f).2.2.1 et n s a hw h
+
+theorem skipMapItems_wf {seek : Bool} {f : Nat} {kt vt : UInt8} {n : Nat} {s a : St}
+    (hw : WFSt s) (h : skipMapItems seek f kt vt n s = .ok a) : WFSt a := by
+  unfold skipMapItems at h
+  by_cases hfw : 0 < fixedWidth kt ∧ 0 < fixedWidth vt
+  · simp only [hfw, and_self, if_true] at h
+    cases hd : discard seek (n * (fixedWidth kt + fixedWidth vt)) s with
+    | none => simp [hd] at h
+    | some s' => simp [hd] at h; subst h; exact discard_wf hd hw
+  · simp only [hfw, if_false] at h
+    exact (wfAt seek f).2.2.2 kt vt n s a hw h
+
 end ThriftVerif.Wire
